@@ -7,6 +7,7 @@ import (
 	"path/filepath"
 	"sort"
 	"strings"
+	"sync"
 
 	"decverif/internal/model"
 	"decverif/internal/ob"
@@ -134,10 +135,17 @@ func runOneControl(c control, rules []string, base map[string]map[string]bool) (
 	if cfg == "" {
 		cfg = "amd64"
 	}
-	bk := strings.Join(rules, ",") + "@" + cfg
+	// violations already present on the unchanged tree (precomputed by the caller when running
+	// in parallel; computed here for the single-control debugging entry point)
+	bk := "@" + cfg
 	if base[bk] == nil {
-		l, _ := runRules(rules, cfg, nil)
-		base[bk] = violationKeys(l)
+		base[bk] = map[string]bool{}
+		for _, r := range rules {
+			l, _ := runRules([]string{r}, cfg, nil)
+			for k := range violationKeys(l) {
+				base[bk][k] = true
+			}
+		}
 	}
 	var list []ob.Obligation
 	func() {
@@ -188,6 +196,15 @@ func runControls(p *props.Prop, tier string) controlReport {
 	rep := controlReport{}
 	base := map[string]map[string]bool{}
 	quickSeen := map[string]bool{}
+	type job struct {
+		c     control
+		sels  []string
+		names []string
+		fresh []ob.Obligation
+		skip  string
+		err   interface{}
+	}
+	var jobs []*job
 	for _, c := range loadControls() {
 		sels := c.rulesFor(p)
 		if len(sels) == 0 {
@@ -203,23 +220,60 @@ func runControls(p *props.Prop, tier string) controlReport {
 				names = append(names, n)
 			}
 		}
-		if tier != "thorough" {
-			if !c.Quick {
-				continue
-			}
-			k := c.Kind + ":" + strings.Join(names, ",")
-			if quickSeen[k] {
-				continue
+		if tier != "thorough" && !c.Quick {
+			continue
+		}
+		jobs = append(jobs, &job{c: c, sels: sels, names: names})
+	}
+	// base violations first (sequential, cached), then the controls in parallel
+	for _, j := range jobs {
+		cfg := j.c.Config
+		if cfg == "" {
+			cfg = "amd64"
+		}
+		bk := "@" + cfg
+		if base[bk] == nil {
+			base[bk] = map[string]bool{}
+		}
+		for _, r := range j.names {
+			if base["done:"+r+bk] == nil {
+				l, _ := runRules([]string{r}, cfg, nil)
+				for k := range violationKeys(l) {
+					base[bk][k] = true
+				}
+				base["done:"+r+bk] = map[string]bool{}
 			}
 		}
-		fresh, skip := runOneControl(c, names, base)
-		if skip != "" {
+	}
+	sem := make(chan struct{}, 8)
+	var wg sync.WaitGroup
+	for _, j := range jobs {
+		wg.Add(1)
+		go func(j *job) {
+			defer wg.Done()
+			sem <- struct{}{}
+			defer func() { <-sem }()
+			defer func() {
+				if r := recover(); r != nil {
+					j.err = r
+				}
+			}()
+			j.fresh, j.skip = runOneControl(j.c, j.names, base)
+		}(j)
+	}
+	wg.Wait()
+	for _, j := range jobs {
+		c, sels, names := j.c, j.sels, j.names
+		if j.err != nil {
+			panic(j.err)
+		}
+		if j.skip != "" {
 			rep.Skipped++
-			rep.SkipNames = append(rep.SkipNames, c.Name+": "+skip)
+			rep.SkipNames = append(rep.SkipNames, c.Name+": "+j.skip)
 			continue
 		}
 		var inProp []ob.Obligation
-		for _, o := range fresh {
+		for _, o := range j.fresh {
 			if o.Rule == "ANALYSIS-ERROR" {
 				inProp = append(inProp, o)
 				continue
@@ -243,13 +297,17 @@ func runControls(p *props.Prop, tier string) controlReport {
 			}
 			continue
 		}
+		k := c.Kind + ":" + strings.Join(names, ",")
 		switch {
 		case c.firedBy(inProp):
+			if tier != "thorough" && quickSeen[k] {
+				continue // one positive control per rule family is reported in the quick tier
+			}
+			quickSeen[k] = true
 			rep.Run++
 			rep.Fired++
 			rep.Names = append(rep.Names, c.Name)
-			quickSeen[c.Kind+":"+strings.Join(names, ",")] = true
-		case c.firedBy(fresh):
+		case c.firedBy(j.fresh):
 			// fires, but only on constructs this property does not select: says nothing here
 		default:
 			rep.Run++
